@@ -39,6 +39,17 @@ type Space struct {
 	Reopen  bool                `json:"reopen"`
 	Query   bool                `json:"query"`
 	Depth   int                 `json:"depth"`
+	// SQLCfg names the query configuration of the SQLStore ("" = default, "tiny" =
+	// one item per page and per IN-batch, "two" = two); NoMig re-instantiates the
+	// KVStore with WithNoMigration(true) on reopen; Query2 also observes QueryPayments
+	// with IncludeIncomplete=false and one-payment pages (Reversed / IndexOffset).
+	SQLCfg string `json:"sql_cfg,omitempty"`
+	NoMig  bool   `json:"kv_no_migration,omitempty"`
+	Query2 bool   `json:"query2,omitempty"`
+}
+
+func (s Space) worldOpts() worldOpts {
+	return worldOpts{query: s.Query, nh: len(s.RegIDs), sqlCfg: s.SQLCfg, noMig: s.NoMig, query2: s.Query2}
 }
 
 func (s Space) hashesSorted() []string {
@@ -109,13 +120,22 @@ func spaces(thorough bool) []Space {
 				Name:   "pair-shared-ids",
 				RegIDs: map[string][]uint64{"h0": ids(1, 2), "h1": ids(1, 2)}, ResIDs: map[string][]uint64{"h0": ids(1, 2), "h1": ids(1, 2)},
 				Amts: []string{"V", "H"}, Kinds: []string{"n", "m"}, Reasons: []int{0},
-				DelAll: allDel, Query: true, Depth: 5,
+				DelAll: allDel, Reopen: true, Query: true, Depth: 5,
 			},
-			{ // MPP / blinded record consistency
+			{ // MPP / blinded record consistency; two different failure reasons
 				Name:   "single-records",
 				RegIDs: map[string][]uint64{"h0": ids(1, 2)}, ResIDs: map[string][]uint64{"h0": ids(1, 2)},
-				Amts: []string{"H"}, Kinds: []string{"n", "m", "t", "a", "b", "c", "z", "x"}, Reasons: []int{1},
+				Amts: []string{"H"}, Kinds: []string{"n", "m", "t", "a", "b", "c", "z", "x"}, Reasons: []int{1, 5},
 				Depth: 5,
+			},
+			{ // non-default store options: SQL pages / IN-batches of one item (two
+				// payments, two attempts, two hops each span several), KVStore
+				// re-instantiated with NoMigration, further QueryPayments options
+				Name:   "pair-tiny-pages",
+				RegIDs: map[string][]uint64{"h0": ids(1, 2), "h1": ids(3)}, ResIDs: map[string][]uint64{"h0": ids(1, 2), "h1": ids(3)},
+				Amts: []string{"H"}, Kinds: []string{"m"}, Reasons: []int{0},
+				DelAll: allDel, Reopen: true, Query: true, Depth: 5,
+				SQLCfg: "tiny", NoMig: true, Query2: true,
 			},
 		}
 	}
@@ -234,7 +254,9 @@ func runSpace(run *evid.Run, sp Space, st *Stats, pool *sqlPool, deadline time.T
 	var ntri int64
 	res := seqmc.Run(seqmc.Options{
 		New: func(worker int) (seqmc.Sys, error) {
-			return newWorld(worldOpts{pool: pool, worker: worker, rep: rep, st: st, query: sp.Query, nh: len(sp.RegIDs)})
+			wo := sp.worldOpts()
+			wo.pool, wo.worker, wo.rep, wo.st = pool, worker, rep, st
+			return newWorld(wo)
 		},
 		Alphabet:     sp.Alphabet(),
 		NoFastReplay: os.Getenv("C16_NOFASTREPLAY") != "",
@@ -545,7 +567,9 @@ func replaySeq(run *evid.Run, doc replayDoc, narrate bool) int {
 
 func replayWith(doc replayDoc, rep reporter, logf func(string, ...any)) int {
 	narrate := logf != nil
-	w, err := newWorld(worldOpts{rep: rep, logf: logf, query: doc.Space.Query, nh: len(doc.Space.RegIDs)})
+	wo := doc.Space.worldOpts()
+	wo.rep, wo.logf = rep, logf
+	w, err := newWorld(wo)
 	if err != nil {
 		fmt.Printf("INFO cannot build world: %v\n", err)
 		return 0
@@ -556,7 +580,7 @@ func replayWith(doc replayDoc, rep reporter, logf func(string, ...any)) int {
 			fmt.Printf("INFO step %d\n", i+1)
 		}
 		if doc.Inject != nil && i == len(doc.History)-1 {
-			runInjected(w, doc.History[:i], a, *doc.Inject, rep, logf)
+			runInjected(doc.Space, doc.History[:i], a, *doc.Inject, rep, logf)
 			continue
 		}
 		if err := w.Do(a); err != nil {
